@@ -372,6 +372,15 @@ def _variants(items, join, inner=None):
         return
     for i in range(len(items)):
         yield join(items[: i + 1] + [items[i]] + items[i + 1 :])
+        # ... and with the bits a sender is told to leave at zero (reserved octets, undefined flags) set, alone and
+        # next to the untouched copy: what a renderer prints only for non-zero flags must still nest properly
+        t, v = items[i]
+        if v:
+            for w in (bytes((b | 0x80) if k < 3 else b for k, b in enumerate(v)), bytes([0xFF] * min(len(v), 3)) + v[3:]):
+                if w != v:
+                    yield join(items[:i] + [(t, w)] + items[i + 1 :])
+                    yield join(items[: i + 1] + [(t, w)] + items[i + 1 :])
+                    yield join(items[:i] + [(t, w), (t, v)] + items[i + 1 :])
     if len(items) > 1:
         yield join(items + items)
         yield join(list(reversed(items)))
